@@ -56,14 +56,18 @@ class K11a(Harness):
         nxt = {r: False for r in RULES}
         expect = []  # per code line: {rule: disabled formula}
         code_tokens = []
+        code_line = []
+        kinds_seen = []
         remark = eng.bool("remark")
         for i in range(L):
             k = KINDS[eng.choose("kind%d" % i, len(KINDS))]
+            kinds_seen.append(k)
             tail = " : because" if remark else ""
             if k == "code":
                 t = parser.todo("x")
                 toks += [t, parser.carriage_return()]
                 code_tokens.append(t)
+                code_line.append(i)
                 expect.append({r: Or(all_off, off[r], nxt[r]) for r in RULES})
                 nxt = {r: False for r in RULES}
                 continue
@@ -117,6 +121,22 @@ class K11a(Harness):
                 oRule.add_violation(violation.New(oToi.get_line_number(), oToi, "s"))
                 kept = len(oRule.violations) == 1
                 clauses.append(("line%d_rule%s" % (j, r), Iff(kept, Not(expect[j][r]))))
+        # a violation whose region spans several code lines (everything between them included) is suppressed as soon as
+        # one of its code lines is tagged for the rule - and reported only if none is
+        for a in range(len(code_tokens)):
+            for b in range(a + 1, len(code_tokens)):
+                ia, ib = toks.index(code_tokens[a]), toks.index(code_tokens[b])
+                for r in RULES:
+                    oRule = TagRule(r)
+                    oToi = xtokens.New(ia, 1 + sum(1 for x in toks[:ia] if isinstance(x, parser.carriage_return)), toks[ia:ib + 1])
+                    oRule.add_violation(violation.New(oToi.get_line_number(), oToi, "s"))
+                    kept = len(oRule.violations) == 1
+                    any_tagged = Or([expect[k][r] for k in range(a, b + 1)])
+                    # "wholly outside tagged lines": no tag comment line sits inside the region either
+                    no_tag_line_inside = all(kinds_seen[i] in ("code", "comment", "blank") for i in range(code_line[a], code_line[b] + 1))
+                    if no_tag_line_inside:
+                        clauses.append(("span%d_%d_rule%s" % (a, b, r), Implies(Not(any_tagged), kept)))
+                    clauses.append(("span_suppressed%d_%d_rule%s" % (a, b, r), Implies(any_tagged, Not(kept))))
         return clauses
 
     def describe(self, values, p):
